@@ -1505,8 +1505,9 @@ def rule_deferred_inline(ctx):
     kinds = {}
     for n, x in calls.items():
         rd = [c for (_, _, c) in x.calls() if norm(c.target or "") == "std::ptr::read"]
-        if len(rd) != 1:
-            raise AnalysisError("EBR-DEFERRED-INLINE: nested call does not ptr::read exactly once")
+        if len(rd) < 1:
+            raise AnalysisError("EBR-DEFERRED-INLINE: nested call does not ptr::read its storage")
+        # (how often it reads and what it invokes is judged below; the first read - of `raw` - tells the kind)
         ty = rd[0].type_args()[0]["ty"]
         kinds[(n.split("@L")[0], x.span["line"])] = "boxed" if ty.startswith("std::boxed::Box<") else "inline"
     n_in = n_box = 0
@@ -1562,6 +1563,42 @@ def rule_deferred_inline(ctx):
     if n_in < 1 or n_box < 1:
         if not r.violations:
             r.violate(b.name, "arms", "Deferred::new lacks the in-place or the boxed arm (inline=%d boxed=%d)" % (n_in, n_box))
+    # the way back: each nested `call` moves the closure out of the storage exactly once and invokes exactly that value
+    # exactly once (the boxed one also frees the box); Deferred::call invokes the stored fn pointer once on its own data
+    for n, x in sorted(calls.items()):
+        r.functions.add(n)
+        kind = kinds[(n.split("@L")[0], x.span["line"])]
+        ps_ = [p for p in ctx.ex.paths(x) if p.exit[0] == "return"]
+        ok = len(ps_) == 1
+        why = "more than one path"
+        if ok:
+            p = ps_[0]
+            rd = [e for e in p.events if e.kind == "call" and norm(e.target or "") == "std::ptr::read"]
+            inv = [e for e in p.events if e.kind == "call" and norm(e.target or "") == "std::ops::FnOnce::call_once"]
+            ok = len(rd) == 1 and len(inv) == 1 and strip(rd[0].args[0]) is not None and \
+                any(y == ("arg", 1, x.local_name(1)) for y in subterms(rd[0].args[0])) and \
+                any(y == rd[0].result for y in list(subterms(inv[0].args[0])) + [strip(inv[0].args[0])])
+            why = "reads=%d invocations=%d (or the value invoked is not the one read from `raw`)" % (len(rd), len(inv))
+            if ok and kind == "boxed":
+                fr = [e for e in p.events if e.kind == "call" and norm(e.target or "").endswith("Box<T, A> as std::ops::Drop>::drop")
+                      and any(y == rd[0].result for y in subterms(e.args[0]))] + \
+                     [e for e in p.events if e.kind == "drop" and any(y == rd[0].result for y in [strip(e.value)] + list(subterms(e.value)))]
+                ok = bool(fr)
+                why = "the box read back is never freed"
+        r.instance("nested call (%s): read the closure from raw once, invoke it once%s" % (kind, ", free the box" if kind == "boxed" else ""), ok)
+        if not ok:
+            r.violate(n, "call-body", "the `call` installed for the %s storage does not move the closure out once and invoke "
+                      "exactly it once: %s" % (kind, why), x.loc(0))
+    dc = prog.body("ebr_impl::deferred::Deferred::call")
+    r.functions.add(dc.name)
+    ps_ = [p for p in ctx.ex.paths(dc) if p.exit[0] == "return"]
+    ok = len(ps_) == 1
+    if ok:
+        ind = [e for e in ps_[0].events if e.kind == "call" and (e.ntarget or "") == "<fnptr>"]
+        ok = len(ind) == 1 and "self.data" in show(ind[0].args[0])
+    r.instance("Deferred::call == (self.call)(self.data.as_mut_ptr().cast()) once", ok)
+    if not ok:
+        r.violate(dc.name, "call", "Deferred::call does not invoke the stored function exactly once on its own storage", dc.loc(0))
     r.require(n_in + n_box, 2, "storage arms")
     return r
 
